@@ -102,6 +102,10 @@ def logical_schemas():
         {"type": "string", "logicalType": "uuid"}, {"type": "bytes", "logicalType": "decimal", "precision": 30, "scale": 2},
         {"type": "fixed", "name": "FD", "size": 4, "logicalType": "decimal", "precision": 9, "scale": 0},
         {"type": "int", "logicalType": "unknown-logical"},
+        # annotations that do not apply to the underlying type must be ignored (the value stays a plain int/long/string)
+        {"type": "int", "logicalType": "timestamp-millis"}, {"type": "int", "logicalType": "timestamp-micros"}, {"type": "int", "logicalType": "time-micros"},
+        {"type": "int", "logicalType": "local-timestamp-millis"}, {"type": "long", "logicalType": "date"}, {"type": "long", "logicalType": "time-millis"},
+        {"type": "string", "logicalType": "date"}, {"type": "bytes", "logicalType": "uuid"}, {"type": "int", "logicalType": "decimal", "precision": 4},
     ]
     out = list(lt)
     out.append({"type": "record", "name": "AllLogical", "fields": [{"name": "f%d" % i, "type": copy.deepcopy(t)} for i, t in enumerate(lt)]})
@@ -282,19 +286,32 @@ def run_unit(i, tier):
     for n in (0, 2, 3):
         c2, _ = choice.explore(run_n(n, None), 1 if draws <= 200 and not doomed else 0, horizon=HORIZON, max_executions=3000)
         n_exec += c2
-    # generate_one
-    u.random, u.uuid = ScriptedRandom(choice.Chooser([], HORIZON)), ScriptedUuid(choice.Chooser([], HORIZON))
-    try:
-        v = u.generate_one(parsed)
+    # generate_one, under every answer sequence with at most one deviation
+    def run_one(ch):
+        u.random, u.uuid = ScriptedRandom(ch), ScriptedUuid(ch)
+        info = dict(info0, n="one")
+        try:
+            v = u.generate_one(parsed if len(ch.prefix) % 2 == 0 else copy.deepcopy(raw))
+        except RecursionError:
+            tag = "record-recursive-through-array-or-map" if doomed else "other"
+            res.add(Violation("c20.generate", f"generate-raised:RecursionError:{tag}", f"generate_one raised RecursionError | {short(info0, 300)}", dict(info, answers=list(ch.choices))))
+            return
+        except (choice.ReplayDivergence, AssertionError):
+            raise
+        except Exception as e:
+            res.add(Violation("c20.generate", f"generate-raised:{type(e).__name__}", f"generate_one raised {type(e).__name__}: {e} | {short(info0, 300)}", dict(info, answers=list(ch.choices))))
+            return
+        finally:
+            u.random, u.uuid = saved
         res.evals += 1
-        check_value(fa, res, raw, parsed, node, defs, v, dict(info0, n="one"))
-    except RecursionError:
-        tag = "record-recursive-through-array-or-map" if doomed else "other"
-        res.add(Violation("c20.generate", f"generate-raised:RecursionError:{tag}", f"generate_one raised RecursionError | {short(info0, 300)}", dict(info0, n="one", answers=[])))
-    except Exception as e:
-        res.add(Violation("c20.generate", f"generate-raised:{type(e).__name__}", f"generate_one raised {type(e).__name__}: {e}", dict(info0, n="one", answers=[])))
-    finally:
-        u.random, u.uuid = saved
+        res.transitions += len(ch.choices)
+        kv = key(v)
+        if kv not in seen_values:
+            seen_values.add(kv)
+            check_value(fa, res, raw, parsed, node, defs, v, dict(info, answers=list(ch.choices)))
+
+    c3, _ = choice.explore(run_one, 1 if (draws <= 1200 and not doomed) else 0, horizon=HORIZON, max_executions=5000)
+    n_exec += c3
     res.states = n_exec
     res.distinct = len(seen_values)
     res.stats["traces_validated"] += n_exec
